@@ -412,6 +412,8 @@ def build_evidence(prop, tier, seed, contracts, all_obs, by_name, proved, infos,
             "functions_under_contract": sorted(interp.sources.values(), key=lambda d: (d["file"], d["qualname"])),
             "by_backend": by_backend, "second_solver": second,
             "solver_time_s": round(sum(o.time for o in all_obs), 2),
+            "slowest": [{"obligation": o.name, "time_s": round(o.time, 2), "verdict": o.verdict}
+                        for o in sorted(all_obs, key=lambda o: -o.time)[:5]],
             "samples": samples,
             "covers": {"paths_checked": len(covers), "satisfiable": sum(1 for c in covers if c.verdict == "sat"),
                        "unknown": sum(1 for c in covers if c.verdict not in ("sat", "unsat"))},
